@@ -449,6 +449,33 @@ func runC03(cfg *vh.Config) error {
 		}
 	}
 
+	// ---- stream 7: timestamp texts, valid in every accepted form and near misses: the model of
+	// time.Parse(time.RFC3339, .) against the real function (the theorems about timestamps assume they agree)
+	nTime := cfg.Scale(600, 12000)
+	fixedTimes := []string{"", "Z", "2020-01-01T00:00:00Z", "2020-01-01T00:00:00z", "2020-01-01t00:00:00Z", "2020-01-01 00:00:00Z", "2020-01-01T00:00:00", "2020-01-01T00:00Z", "2020-01-01",
+		"2020-01-01T24:00:00Z", "2020-01-01T23:59:60Z", "2016-12-31T23:59:60Z", "2020-01-01T1:02:03Z", "2020-01-01T1:2:3Z", "2020-01-01T01:02:03.Z", "2020-01-01T01:02:03,5Z", "2020-01-01T01:02:03.1234567891234Z",
+		"2020-01-01T00:00:00+24:00", "2020-01-01T00:00:00+24:60", "2020-01-01T00:00:00+25:00", "2020-01-01T00:00:00-00:61", "2020-01-01T00:00:00+0000", "2020-01-01T00:00:00+00", "2020-01-01T00:00:00 00:00",
+		"0000-01-01T00:00:00Z", "0000-01-01T00:00:00+24:60", "9999-12-31T23:59:59.999999999-24:60", "10000-01-01T00:00:00Z", "+2020-01-01T00:00:00Z", "-2020-01-01T00:00:00Z", "2020-1-1T00:00:00Z",
+		"2020-02-29T00:00:00Z", "2021-02-29T00:00:00Z", "1900-02-29T00:00:00Z", "2000-02-29T00:00:00Z", "2020-04-31T00:00:00Z", "2020-00-10T00:00:00Z", "2020-13-10T00:00:00Z", "2020-01-00T00:00:00Z", "2020-01-32T00:00:00Z",
+		"2020-01-01T00:00:00Z ", " 2020-01-01T00:00:00Z", "2020-01-01T00:00:00ZZ", "2020-01-01T00:00:00.5", "2020-01-01T00:00:00.5.5Z", "2020-01-01T00:00:00.٥Z", "２０２０-01-01T00:00:00Z", "2020-01-01T00:00:00Z\x00"}
+	for i := 0; i < nTime+len(fixedTimes); i++ {
+		var s string
+		if i < len(fixedTimes) {
+			s = fixedTimes[i]
+		} else {
+			s = codecgen.TimeText(r)
+		}
+		term, ok := codecgen.TimeTerm(s)
+		res.Count("timestamp-text")
+		res.Count(fmt.Sprintf("timestamp-text accepted by time.Parse: %v", ok))
+		distinct.Add("time:" + s)
+		em.add(fmt.Sprintf("CTime %s %s", codecgen.BytesTerm(s), term), "timestamp-text", map[string]any{"text": s}, map[string]any{"time.Parse": term})
+		em.caseNo++
+		if ok && i >= len(fixedTimes) {
+			res.Sample(map[string]any{"stream": "timestamp-text", "text": s, "accepted": true}, 8)
+		}
+	}
+
 	if tripped() {
 		res.Notes = append(res.Notes, fmt.Sprintf("the run stopped issuing calls after %d calls that did not return (killed worker processes); the remaining inputs were not executed", maxHard))
 	}
